@@ -22,7 +22,7 @@ keep)
   P=$2; V=$3; S=$O/$P/$V; D=/verif/seeded/$P-r$R$V
   grep -q "out$R/$P/$V OK" /tmp/mut/v$R/$P.txt || { echo "not verified: $P/$V"; exit 1; }
   mkdir -p "$D"; cp "$S/patch.diff" "$S/meta.json" "$D/"
-  for f in demo.py equiv.py; do [ -f "$S/$f" ] && cp "$S/$f" "$D/"; done
+  for f in demo.py equiv.py sim.py simnet.py harness.py proplib.py simmachine.py; do [ -f "$S/$f" ] && cp "$S/$f" "$D/"; done
   for f in "$S"/orig_*.py; do [ -f "$f" ] && cp "$f" "$D/"; done
   /venv/bin/python - "$D" "$P" "$V" "$R" <<'PY'
 import json, sys
